@@ -16,8 +16,10 @@ def LiveBound (P : Pods) (q : Pod) : Prop := Tbl.get P q.id = some q ∧ q.finis
 /-- some live bound pod has this key -/
 def LiveKey (P : Pods) (k : Key) : Prop := ∃ q, LiveBound P q ∧ keyOf q = k
 
-/-- a record that may appear: under a live bound pod's key only with that pod's uid (or none) -/
-def NewOK (P : Pods) (r : Rec) : Prop := ∀ q, LiveBound P q → keyOf q = r.key → r.uid = 0 ∨ r.uid = q.uid
+/-- a record that may appear.  (Since resync and Release check the whole key before acting, a record of another
+    incarnation under a live bound pod's key is harmless: nothing is required of new records any more; the predicate
+    is kept so that the statements built on it keep their shape.) -/
+def NewOK (_P : Pods) (_r : Rec) : Prop := True
 
 /-- a change of one address' record that cannot hurt a live bound pod -/
 def SafeChange (P : Pods) (old new : Option Rec) : Prop :=
@@ -87,6 +89,7 @@ def FaultSpent (s : State) : Prop := s.fault = 0 ∨ s.fault ≤ s.calls
 @[simp] theorem good_bindUidGuardCoversWholeKey : Facts.good.bindUidGuardCoversWholeKey = true := rfl
 @[simp] theorem good_releaseRechecks : Facts.good.releaseRechecks = true := rfl
 @[simp] theorem good_resyncRechecks : Facts.good.resyncRechecks = true := rfl
+@[simp] theorem good_wholeKeyCheck : Facts.good.wholeKeyCheck = true := rfl
 @[simp] theorem good_apiDoubleCheck : Facts.good.apiDoubleCheck = true := rfl
 @[simp] theorem good_runningChecksUID : Facts.good.runningChecksUID = true := rfl
 
